@@ -102,7 +102,8 @@ class C14(Prop):
               'DK.C14b.tdevice_hess', 'DK.C14b.tdevice_hess_symm', 'DK.C14b.tdevice_hess_psd',
               'DK.C14b.tSlotHess_eq', 'DK.C14b.tdevHessDiag_eq', 'DK.C14b.tdevHess_const'],
               'DK.Props.C01c': ['DK.C01c.fn_hess', 'DK.C01c.fn_hess_symm'],
-              'DK.Props.C01all': ['DK.C01all.leaf_hess']}
+              'DK.Props.C01all': ['DK.C01all.leaf_hess'],
+              'DK.Props.Link': ['DK.Link.accepted_hess_psd', 'DK.Link.idevice_real_hess_psd']}
   rule = ('random leaf of every shipped class (ADevice x every combinator of functions.py, half of them restricted to the convex family; '
           'IDevice also with non-integer exponents, oracle only) x n in 1..8 (..31 thorough; storage / thermal n <= 4) x zero-width slots x '
           'scalar/vector parameters x in-bounds flow x price; non-trivial: n >= 2, a flow strictly inside a non-zero-width slot and a '
